@@ -55,11 +55,16 @@ def rule_sweep(ctx: Ctx) -> None:
         for c in rem:
             if chain(arg(c, 0)) != idv:
                 continue
-            for f in facts_at(cfg, c):
-                if f.op == "lt" and f.pos and norm(f.left) == f"{objv}.last_activity" and _is_now_minus(f.right, "self.settings.max_time_inactive"):
-                    others = [g for g in facts_at(cfg, c) if g is not f and g.pos and not (g.op == "eq" and norm(g.left) == f"{objv}.state")]
+            fs = facts_at(cfg, c)
+            for f in fs:
+                # the test must be the *only* condition of the removal (besides `state == READY` for own circuits and the
+                # negation of the earlier inactivity branch): an extra conjunct lets abandoned entries live forever
+                others = [g for g in fs if g is not f and not (g.op == "eq" and g.pos and norm(g.left) == f"{objv}.state" and norm(g.right) == "CIRCUIT_STATE_READY")
+                          and not (g.op == "lt" and not g.pos and norm(g.left) == f"{objv}.last_activity")]
+                if f.op == "lt" and f.pos and norm(f.left) == f"{objv}.last_activity" and _is_now_minus(f.right, "self.settings.max_time_inactive") \
+                        and norm(f.right) == "time.time() - self.settings.max_time_inactive" and not others:
                     inactive = True
-                if f.op == "lt" and f.pos and norm(f.left) == f"{objv}.creation_time" and _is_now_minus(f.right, f"self.get_max_time({idv})"):
+                if f.op == "lt" and f.pos and norm(f.left) == f"{objv}.creation_time" and _is_now_minus(f.right, f"self.get_max_time({idv})") and not others:
                     age = True
         ctx.check(inactive, "sweep-coverage", fi, l, f"{table}: entry removed when last_activity < now - max_time_inactive",
                   f"entries of {table} are not removed by inactivity: an abandoned entry lives forever if the destroy is lost")
